@@ -48,16 +48,16 @@ func leftHalfHash(alg, v string) string {
 }
 
 type c14Ctx struct {
-	c       *run.Ctx
-	key     c14Key
-	client  string
-	subject string
-	nonce   string
-	life    time.Duration
-	preset  time.Time
+	c        *run.Ctx
+	key      c14Key
+	client   string
+	subject  string
+	nonce    string
+	life     time.Duration
+	preset   time.Time
 	extraAud []string
-	hist    []string
-	caseID  string
+	hist     []string
+	caseID   string
 }
 
 // checkIDToken verifies one ID token against the artefacts of the same response.
@@ -146,7 +146,7 @@ func C14(c *run.Ctx) {
 	keys := c14Keys()
 	rts := []string{"code", "id_token", "id_token token", "code id_token", "code token", "code id_token token", "device"}
 	type sessVar struct {
-		name    string
+		name string
 		// relation of auth_time to requested_at, in seconds (auth - requested); zeroAuth: no auth_time
 		authOff  int
 		zeroAuth bool
